@@ -167,12 +167,16 @@ pub fn anim_desc(u: U) -> AnimDesc {
     AnimDesc { states, initial_state: byte(u) % 5, initial_values: vals(u), builder_order: byte(u) % 8 }
 }
 pub fn step(u: U) -> Step {
-    match byte(u) % 20 {
+    match byte(u) % 24 {
         0 | 1 => Step::Zero,
         2..=9 => Step::Grid(pick(u, &[1u32, 32, 128, 256, 512, 1536, 51200])),
         10..=12 => Step::Grid(1 + word(u) as u32 % 4095),
         13..=15 => Step::Arb(if chance(u, 1, 2) { word(u) as f32 / 65535.0 * 4.0 } else { 10f64.powf(-4.0 + 6.5 * word(u) as f64 / 65535.0) as f32 }),
-        _ => Step::ToEnd { off: (byte(u) % 5) as i8 - 2 },
+        16..=19 => Step::ToEnd { off: (byte(u) % 5) as i8 - 2 },
+        20 => Step::ToEndUlps { ulps: (byte(u) % 7) as i8 - 3 },
+        21 => Step::ToEndCycles { cycles: (byte(u) % 5) as i8 - 2 },
+        22 => Step::Arb(pick(u, &[1.0e-9f32, 1.0e-7, f32::EPSILON, 3.0e-6, 5.0e-5])),
+        _ => Step::Arb(10f64.powf(-9.5 + 5.5 * word(u) as f64 / 65535.0) as f32),
     }
 }
 pub fn hist(u: U, max_ops: u8) -> HistCase {
@@ -180,6 +184,186 @@ pub fn hist(u: U, max_ops: u8) -> HistCase {
     let n = 1 + byte(u) % max_ops;
     let ops = (0..n).map(|_| if byte(u) % 9 < 5 { AOp::Adv(step(u)) } else { AOp::Set(byte(u) % 5) }).collect();
     HistCase { desc, ops }
+}
+
+// ---- C06: partitions of elapsed time
+pub fn c06_case(u: U) -> mv_core::c_animator::C06Case {
+    use mv_core::c_animator::{C06Case, Segment};
+    let desc = anim_desc(u);
+    let n = 1 + byte(u) % 6;
+    let words = |u: U, max: u8| -> Vec<u16> { let k = byte(u) % (max + 1); (0..k).map(|_| word(u)).collect() };
+    let segs = (0..n)
+        .map(|_| {
+            let units = match byte(u) % 6 {
+                0..=2 => 1 + word(u) as u32 % 2047,
+                3 | 4 => pick(u, &[512u32, 1024, 1536, 2560, 51200]),
+                _ => 0,
+            };
+            Segment { units, cuts_a: words(u, 7), cuts_b: words(u, 7), zeros_b: words(u, 3), then_set: byte(u) % 5 }
+        })
+        .collect();
+    C06Case { desc, segs }
+}
+
+// ---- C08: un-animated properties
+pub fn c08_case(u: U) -> mv_core::c_timeline::C08Case {
+    let n = 1 + byte(u) % 3;
+    let drop_mask = byte(u) % 16;
+    let mut tls: Vec<TlDesc> = (0..n).map(|_| { let t = timing(u, true, false); tl(u, 8, t, true, true) }).collect();
+    for t in &mut tls {
+        for k in &mut t.kfs {
+            if drop_mask & 1 != 0 { k.a = None; }
+            if drop_mask & 2 != 0 { k.b = None; }
+            if drop_mask & 4 != 0 { k.c = None; }
+            if drop_mask & 8 != 0 { k.d = None; }
+        }
+    }
+    let tls: Vec<TlDesc> = tls.into_iter().map(|t| t.sanitize()).collect();
+    let back = tls.iter().any(|t| t.uses_back());
+    let start = if chance(u, 3, 10) { Some(sanitize_vals(vals(u), back)) } else { None };
+    mv_core::c_timeline::C08Case { tls, drop_mask, start, times: timespecs(u, 10), sentinel: dword(u) }
+}
+
+// ---- C14: lerp
+pub fn lerp_x(u: U) -> f32 {
+    match byte(u) % 5 {
+        0 | 1 => (word(u) % 257) as f32 / 256.0,
+        2 => word(u) as f32 / 65535.0,
+        3 => pick(u, &[0.0f32, 1.0, f32::MIN_POSITIVE, 1.0 - f32::EPSILON / 2.0, 0.5, f32::EPSILON, 1.4901161e-8, 2.9802322e-8, 1.0e-9, 1.0e-6, 0.999999, 0.99999994]),
+        _ => {
+            let f = f32::from_bits(dword(u) % 0x3f80_0001);
+            if f.is_finite() && (0.0..=1.0).contains(&f) { f } else { 0.25 }
+        }
+    }
+}
+fn sorted_xs(u: U, n: usize) -> Vec<f32> {
+    let mut xs: Vec<f32> = (0..n).map(|_| lerp_x(u)).collect();
+    xs.sort_by(|p, q| p.partial_cmp(q).unwrap());
+    xs
+}
+pub fn wide_case(u: U) -> mv_core::c_lerp::WideCase {
+    let ty = byte(u) % 9;
+    let (lo, hi) = mv_core::c_lerp::repr_limits(ty);
+    let val = |u: U| -> f64 {
+        let v = match byte(u) % 8 {
+            0 => pick(u, &[0.0f64, 1.0, -1.0, 2.0, 127.0, 128.0, 255.0, 16_777_216.0, 16_777_215.0, 16_777_218.0, -16_777_216.0]),
+            1 => lo,
+            2 => hi,
+            3 => if hi.abs() < 16_777_216.0 { hi - 1.0 } else { mv_model::step32(hi as f32, -1) as f64 },
+            4 => if lo.abs() < 16_777_216.0 { lo + 1.0 } else { mv_model::step32(lo as f32, 1) as f64 },
+            5 => { let f = f32::from_bits(dword(u)); if f.is_finite() { f.trunc() as f64 } else { 0.0 } }
+            6 => (dword(u) % (1 << 24)) as f64 * 2f64.powi((byte(u) % 40) as i32),
+            _ => -((dword(u) % (1 << 24)) as f64) * 2f64.powi((byte(u) % 40) as i32),
+        };
+        v.clamp(lo, hi)
+    };
+    let (a, b) = (val(u), val(u));
+    mv_core::c_lerp::WideCase { ty, a, b, xs: sorted_xs(u, 8) }
+}
+pub fn float_case(u: U) -> mv_core::c_lerp::FloatCase {
+    let f = |u: U| -> f32 {
+        match byte(u) % 7 {
+            0..=2 => ((dword(u) as f64 / u32::MAX as f64) * 2.0e4 - 1.0e4) as f32,
+            3 | 4 => (byte(u) as i32 - 100).clamp(-99, 99) as f32,
+            5 => pick(u, &[0.0f32, 1.0, -1.0, 1.0e30, -1.0e30, 1.0e-30, 16_777_216.0, 3.0e38, -3.0e38, f32::MAX, f32::MIN]),
+            _ => { let v = f32::from_bits(dword(u)); if v.is_finite() && v.abs() < 1e37 { v } else { 0.0 } }
+        }
+    };
+    let d = |u: U| -> f64 {
+        match byte(u) % 6 {
+            0 | 1 => (((dword(u) as f64 / u32::MAX as f64) * 2.0e6 - 1.0e6) as f32) as f64,
+            2 => pick(u, &[0.0f64, 1.0, -1.0, 1.25e5, 6.77e5]),
+            3 => (word(u) as i32 % 2000 - 1000) as f64,
+            4 => { let v = f32::from_bits(dword(u)); if v.is_finite() && v.abs() < 1e37 && (v.abs() > 1e-37 || v == 0.0) { v as f64 } else { 0.0 } }
+            _ => (1 + dword(u) % ((1 << 24) - 1)) as f64 * 2f64.powi((byte(u) as i32 % 241) - 120 - 24),
+        }
+    };
+    let i = |u: U| -> i32 {
+        match byte(u) % 5 {
+            0 | 1 => word(u) as i32 % 2000 - 1000,
+            2 => (dword(u) % (1 << 25)) as i32 - (1 << 24),
+            3 => i32::MIN,
+            _ => i32::MAX - 127,
+        }
+    };
+    let (a, b, a64, b64) = (f(u), f(u), d(u), d(u));
+    let xs = sorted_xs(u, 6);
+    mv_core::c_lerp::FloatCase { a, b, a64, b64, xs, vec_a: [f(u), f(u), f(u), f(u)], vec_b: [f(u), f(u), f(u), f(u)], ivec_a: [i(u), i(u), i(u), i(u)], ivec_b: [i(u), i(u), i(u), i(u)] }
+}
+
+// ---- C20: extreme but valid configurations
+pub fn c20_case(u: U) -> mv_core::c_robust::C20Case {
+    use mv_core::c_robust::{C20Case, XTime};
+    let log = |u: U, lo: f64, hi: f64| -> f32 { 10f64.powf(lo + (hi - lo) * word(u) as f64 / 65535.0) as f32 };
+    let cyc = match byte(u) % 3 {
+        0 => pick(u, &[f32::MIN_POSITIVE, 1.0e-30, 1.0e-10, 1.0e-3, 1.0, 1.0e10, 1.0e30, 2.0e38, 3.0e38]),
+        1 => log(u, -37.9, 30.0),
+        _ => cycle(u),
+    };
+    let del = match byte(u) % 10 {
+        0..=2 => 0.0,
+        3 | 4 => pick(u, &[1.0e30f32, -1.0e30, 1.0e-30, -1.0e-30, 1.0, -1.0]),
+        5 | 6 => log(u, -30.0, 30.0),
+        7 => -log(u, -30.0, 30.0),
+        _ => delay(u, true),
+    };
+    let rep = match byte(u) % 11 {
+        0 | 1 => Rep::None,
+        2..=4 => Rep::Times(pick(u, &[0u32, 1, 2, 7])),
+        5..=8 => Rep::Times(pick(u, &[(1u32 << 24) - 1, 1 << 24, (1 << 24) + 1, u32::MAX - 1, u32::MAX])),
+        _ => Rep::Infinite,
+    };
+    let t = Timing { cycle: cyc, delay: del, repeat: rep, reverse: chance(u, 1, 2) };
+    let xval = |u: U| -> f32 {
+        match byte(u) % 7 {
+            0..=2 => f32_val(u),
+            3 | 4 => pick(u, &[1.2676506e30f32, -1.2676506e30, 1.0e-30, -1.0e-30, 0.0]),
+            5 => pick(u, &[3.0e38f32, -3.0e38, f32::MAX, f32::MIN]),
+            _ => log(u, -30.0, 30.0),
+        }
+    };
+    let xpos = |u: U| -> f32 {
+        if chance(u, 3, 5) { pos(u) } else { pick(u, &[0.0f32, 1.0, f32::MIN_POSITIVE, 1.0e-45, 1.0 - f32::EPSILON / 2.0, f32::EPSILON]) }
+    };
+    let n = byte(u) % 7;
+    let default_ez = ez(u, true, true);
+    let kfs = (0..n)
+        .map(|_| KfDesc {
+            pos: xpos(u),
+            a: if chance(u, 3, 5) { Some(xval(u)) } else { None },
+            b: if chance(u, 2, 5) { Some(xval(u)) } else { None },
+            c: if chance(u, 1, 2) { Some(i32_val(u)) } else { None },
+            d: if chance(u, 1, 2) { Some(byte(u)) } else { None },
+            ez: if chance(u, 2, 5) { Some(ez(u, true, true)) } else { None },
+        })
+        .collect();
+    let mut tl = TlDesc { timing: t, default_ez, kfs, order: 0 }.sanitize();
+    let back = tl.uses_back();
+    if back {
+        for k in tl.kfs.iter_mut() {
+            k.a = k.a.map(|v| v.clamp(-8.0e37, 8.0e37));
+            k.b = k.b.map(|v| v.clamp(-8.0e37, 8.0e37));
+        }
+    }
+    let xt = |u: U| -> XTime {
+        match byte(u) % 16 {
+            0 => XTime::Zero,
+            1 => XTime::MinPositive,
+            2 => XTime::Tiny,
+            3..=8 => XTime::Boundary { which: byte(u) % 4, k: if chance(u, 3, 4) { (byte(u) % 4) as u32 } else { pick(u, &[1u32 << 24, u32::MAX - 1, u32::MAX]) }, ulps: (byte(u) % 5) as i8 - 2 },
+            9 => XTime::ManyCycles,
+            10 => XTime::E19,
+            11 => XTime::TwoPow64,
+            12 => XTime::Max,
+            13 => XTime::Abs(word(u) as f32 / 655.35),
+            _ => XTime::Abs(log(u, -30.0, 38.0)),
+        }
+    };
+    let start = if chance(u, 3, 10) { Some(sanitize_vals(vals(u), back)) } else { None };
+    let times = (0..10).map(|_| xt(u)).collect();
+    let na = byte(u) % 7;
+    let advances = (0..na).map(|_| xt(u)).collect();
+    C20Case { tl, start, times, advances, second_state_animated: chance(u, 1, 2) }
 }
 
 pub fn report<C: serde::Serialize>(property: &str, check: &str, case: &C, detail: &str) -> ! {
